@@ -23,6 +23,23 @@ type C03Case struct {
 }
 
 func genC03(g gen.G) C03Case {
+	if g.Chance(20) {
+		// a constructed candidate population around / above the limit of 100 (attributes, blocks,
+		// labels, functions, object attributes, targets, hook candidates): which candidates are
+		// kept when the list is cut must not depend on map iteration order
+		l := LimitM{Kind: gen.Pick(g, limitKinds), N: gen.Pick(g, []int{99, 100, 101, 103, 130, 250})}
+		if strings.HasPrefix(l.Kind, "hooks+") {
+			l.Hooks = gen.Pick(g, []int{1, 40, 60, 99, 130})
+		}
+		l.Ext = g.Chance(40)
+		w, file, cursor, _, _ := limitWorld(l)
+		c := C03Case{World: w, Queries: wholePathCalls(w)}
+		for _, pf := range []bool{false, true} {
+			c.Queries = append(c.Queries, Call{Kind: "completion", Path: 0, File: file, Byte: cursor, Prefill: pf})
+		}
+		c.History = GenCalls(g, w, g.Int(0, 4))
+		return c
+	}
 	o := gen.WorldOpts{
 		Schema:   gen.SchemaOpts{MaxDepth: 2, Wide: true, AddrPct: 60, DepBoost: g.Chance(40)},
 		Cfg:      gen.CfgOpts{Violations: 8, Layout: false},
@@ -39,8 +56,14 @@ func genC03(g gen.G) C03Case {
 		o.Cfg.HalfTyped = 10
 		o.Cfg.Layout = true
 	}
+	huge := !sweep && g.Chance(25)
+	if huge {
+		// populations around the candidate limit (95-130 functions / attributes / blocks): what
+		// is left out when a list is cut must not depend on map iteration order
+		o.Schema.Huge, o.Schema.MaxDepth, o.MaxFiles = true, 1, 2
+	}
 	w := g.World(o)
-	if !sweep && g.Chance(30) {
+	if !sweep && !huge && g.Chance(30) {
 		// a Terraform-like world: inferred bodies, self references, nested blocks, cross-path origins
 		w = g.RefWorld(g.Int(1, 2), false)
 	}
@@ -48,6 +71,20 @@ func genC03(g gen.G) C03Case {
 		World:   w,
 		Queries: append(GenCalls(g, w, g.Int(6, 12)), wholePathCalls(w)...),
 		History: GenCalls(g, w, g.Int(0, 10)),
+	}
+	if huge {
+		// completion where values start (functions and references are offered there) and where items start
+		for pi, p := range w.Paths {
+			for _, f := range p.Files {
+				n := 0
+				for i := 0; i+2 < len(f.Text) && n < 12; i++ {
+					if f.Text[i] == '=' && f.Text[i+1] == ' ' {
+						c.Queries = append(c.Queries, Call{Kind: "completion", Path: pi, File: f.Name, Byte: i + 2})
+						n++
+					}
+				}
+			}
+		}
 	}
 	if sweep {
 		pi := g.Int(0, len(w.Paths)-1)
